@@ -226,3 +226,35 @@ def positional_forms(ctx: Ctx, grid: Grid) -> None:
                 i = tuple(int(x) for x in bad.nonzero()[0])
                 ctx.violation(f"positional:{name}", f"{name}: positional arguments in the documented order ({', '.join(order)}) give another value than the keywords",
                               {"call": call, "at": grid.describe(i), "positional": pos[i].item(), "keyword": want[i].item()})
+
+
+def strike_spelling(ctx: Ctx, which: str) -> None:
+    """A Python-float strike and the same strike as a float64 tensor give the same value on float64 inputs, also when the
+    global default dtype is float32 (1.1 is not representable in float32).  which: "price" or "greeks"."""
+    import pfhedge.nn.functional as F
+    DT = torch.float64
+    lm = torch.tensor([-0.5, -0.125, 0.0, 0.25], dtype=DT)
+    mlm = torch.tensor([-0.25, -0.125, 0.5, 0.25], dtype=DT)
+    t, v, K = 0.25, 0.5, 1.1
+    saved = torch.get_default_dtype()
+    torch.set_default_dtype(torch.float32)
+    try:
+        for fname in sorted(POSITIONAL):
+            order = POSITIONAL[fname]
+            if "strike" not in order or (fname.endswith("_price") != (which == "price")):
+                continue
+            kw = {"log_moneyness": lm, "max_log_moneyness": mlm, "time_to_maturity": torch.full_like(lm, t), "volatility": torch.full_like(lm, v), "call": True}
+            kw = {k: x for k, x in kw.items() if k in order}
+            try:
+                with torch.enable_grad():
+                    as_float = getattr(F, fname)(**kw, strike=K).detach()
+                    as_tensor = getattr(F, fname)(**kw, strike=torch.tensor(K, dtype=DT)).detach()
+            except Exception as ex:
+                ctx.violation(f"strike-spelling:{fname}:raises", f"{fname} raised {type(ex).__name__} for a Python-float / 0-dim tensor strike", {"error": repr(ex)[:200]})
+                continue
+            ctx.count(n=1)
+            if as_float.dtype != as_tensor.dtype or not bool((((as_float - as_tensor).abs() <= 1e-13 * (1 + as_tensor.abs())) | (as_float.isnan() & as_tensor.isnan())).all()):
+                ctx.violation(f"strike-spelling:{fname}", f"{fname}: a Python-float strike and the same strike as a float64 tensor give different values on float64 inputs "
+                              "(the number was rounded through the default dtype)", {"strike": K, "python_float": as_float.tolist(), "tensor": as_tensor.tolist()})
+    finally:
+        torch.set_default_dtype(saved)
